@@ -730,7 +730,21 @@ def _rule_r6(text, log):
         inner = out[op + 1:close]
         cm = re.match(r'\s*\|\s*&\s*(\([^|]*\))\s*\|\s*\{', inner)
         if not cm:
-            raise Unsupported('R6h: closure not recognised')
+            # (h2) expression closure `|x| EXPR` with EXPR: Option<T>  ->  push the Some values in order
+            cm2 = re.match(r'\s*\|\s*([a-z_][a-z0-9_]*)\s*\|\s*', inner)
+            if not cm2 or inner[cm2.end():].lstrip().startswith('{'):
+                raise Unsupported('R6h: closure not recognised')
+            E = mm.group(1)
+            rep = ('({ let mut __r6_hits = Vec::new(); let mut __r6_i: usize = 0;\n'
+                   '        while __r6_i < %s.len() {\n'
+                   '            let %s = &%s[__r6_i];\n'
+                   '            match %s { Some(__r6_v) => { __r6_hits.push(__r6_v); } None => {} }\n'
+                   '            __r6_i += 1;\n'
+                   '        }\n'
+                   '        __r6_hits })') % (E, cm2.group(1), E, inner[cm2.end():].strip())
+            out = out[:mm.start()] + rep + out[close + 1 + tail.end():]
+            n += 1
+            continue
         pat = cm.group(1)
         bopen = cm.end() - 1
         bclose = rs.match_brace(rs.mask(inner), bopen)
@@ -797,6 +811,20 @@ def _rule_r6(text, log):
         inner = out[op + 1:close]
         cm = re.match(r'\s*\|\s*([a-z_][a-z0-9_]*)\s*\|\s*', inner)
         tm = re.match(r'\s*\.unwrap_or_else\(', m[close + 1:])
+        tm2 = re.match(r'\s*\.into_iter\(\)\s*\.collect\(\)', m[close + 1:])
+        if cm and tm2:
+            # (k2) `.find_map_any(|x| EXPR).into_iter().collect()`: the vector of the (at most one) value found
+            E = mm.group(1)
+            rep = ('({ let mut __r6_hits = Vec::new(); let mut __r6_i: usize = 0;\n'
+                   '            while __r6_i < %s.len() && __r6_hits.len() == 0 {\n'
+                   '                let %s = &%s[__r6_i];\n'
+                   '                match %s { Some(__r6_v) => { __r6_hits.push(__r6_v); } None => {} }\n'
+                   '                __r6_i += 1;\n'
+                   '            }\n'
+                   '            __r6_hits })') % (E, cm.group(1), E, inner[cm.end():].strip())
+            out = out[:mm.start()] + rep + out[close + 1 + tm2.end():]
+            n += 1
+            continue
         if not cm or not tm:
             raise Unsupported('R6k: find_map_any(..).unwrap_or_else(..) shape not recognised')
         x, body = cm.group(1), inner[cm.end():].strip()
@@ -1158,6 +1186,14 @@ def _apply_subst(text, log, rules):
             text, cnt = rx.subn(lambda m_: new.replace('\\n', '\n'), text)
             if cnt:
                 log.append(('SW:%s=>%s' % (old, new), cnt))
+            continue
+        if r.startswith('RX:'):
+            # unit-declared REGEX substitution  RX:pattern=>replacement (python re syntax, \\1.. for groups); used where a family
+            # of spellings must be routed through the same shim (e.g. `<expr> == CheckMode::X` -> `mode_eq(<expr>, CheckMode::X)`)
+            old, new = r[3:].split('=>', 1)
+            text, cnt = re.subn(old, new, text)
+            if cnt:
+                log.append(('RX:%s=>%s' % (old, new), cnt))
             continue
         if r.startswith('S:'):
             # unit-declared token substitution  S:old=>new  (listed in evidence; used only for
